@@ -13,7 +13,8 @@ G4 == { DD(FALSE, <<>>, 0), DD(FALSE, <<1>>, 0), DD(TRUE, <<1>>, 0), DD(FALSE, <
         DD(TRUE, <<7>>, 0), DD(FALSE, <<2>>, 0), DD(FALSE, <<3>>, 0), DD(FALSE, <<1,5>>, -1), DD(TRUE, <<2,5>>, -2),
         DD(FALSE, Third, -34), DD(FALSE, Nines(34), 0), DD(FALSE, Nines(34), -34), DD(TRUE, Nines(33) \o <<5>>, -10),
         DD(FALSE, <<1>>, 33), DD(FALSE, <<1>> \o Zeros(32) \o <<1>>, 0), DD(FALSE, <<5>>, -34), DD(FALSE, <<1>>, 30), DD(TRUE, <<1>>, -30),
-        DD(FALSE, <<1,2,3,4,5,6,7,8,9>>, -4), DD(FALSE, <<9,0,0,7,1,9,9,2,5,4,7,4,0,9,9,3>>, 0), DD(FALSE, <<4,5>>, 0), DD(TRUE, <<4,5>>, -1) }
+        DD(FALSE, <<1,2,3,4,5,6,7,8,9>>, -4), DD(FALSE, <<9,0,0,7,1,9,9,2,5,4,7,4,0,9,9,3>>, 0), DD(FALSE, <<4,5>>, 0), DD(TRUE, <<4,5>>, -1),
+        DD(FALSE, <<6>>, -35), DD(FALSE, <<1>>, 5), DD(TRUE, <<6>>, -30) }          \* 1 - 6e-35, 100000 - 6e-30: just below a power of ten the grid is ten times finer
 Divs == { DD(FALSE, <<3>>, 0), DD(TRUE, <<7>>, 0), DD(FALSE, <<2>>, 0), DD(FALSE, <<1,5>>, -1), DD(FALSE, <<1>>, -1), DD(FALSE, <<9,9,9,9,9>>, 2), DD(FALSE, <<4>>, 0), DD(TRUE, <<2,5>>, -2) }
 \* whole numbers around the machine-word boundaries 2^31, 2^32, sqrt(2^63), 2^53, 2^63, 2^64 (written without an exponent)
 W4 == { DD(FALSE, <<2,1,4,7,4,8,3,6,4,7>>, 0), DD(FALSE, <<2,1,4,7,4,8,3,6,4,9>>, 0), DD(FALSE, <<4,2,9,4,9,6,7,2,9,5>>, 0), DD(FALSE, <<4,2,9,4,9,6,7,2,9,7>>, 0), DD(FALSE, <<3,0,3,7,0,0,0,4,9,9>>, 0), DD(FALSE, <<3,0,3,7,0,0,0,5,0,1>>, 0), DD(FALSE, <<4,0,0,0,0,0,0,0,0,1>>, 0), DD(FALSE, <<3,0,0,0,0,0,0,0,0,1>>, 0), DD(FALSE, <<9,0,0,7,1,9,9,2,5,4,7,4,0,9,9,3>>, 0), DD(FALSE, <<9,2,2,3,3,7,2,0,3,6,8,5,4,7,7,5,8,0,7>>, 0), DD(FALSE, <<9,2,2,3,3,7,2,0,3,6,8,5,4,7,7,5,8,0,9>>, 0), DD(FALSE, <<1,8,4,4,6,7,4,4,0,7,3,7,0,9,5,5,1,6,1,5>>, 0), DD(FALSE, <<1,8,4,4,6,7,4,4,0,7,3,7,0,9,5,5,1,6,1,7>>, 0) }
